@@ -14,6 +14,7 @@ import (
 	"fmt"
 	"io"
 	"net"
+	"net/http"
 	"strconv"
 	"strings"
 	"sync"
@@ -351,6 +352,27 @@ func waitTimeout(wg *sync.WaitGroup, d time.Duration) bool {
 		return true
 	case <-time.After(d):
 		return false
+	}
+}
+
+// wireResponses parses everything the server wrote with net/http's reader (the independent parser) and
+// returns the status codes of the final (>= 200) responses.
+func wireResponses(out []byte) ([]int, error) {
+	br := bufio.NewReader(bytes.NewReader(out))
+	var codes []int
+	for {
+		if _, err := br.Peek(1); err != nil {
+			return codes, nil
+		}
+		resp, err := http.ReadResponse(br, nil)
+		if err != nil {
+			return codes, err
+		}
+		io.Copy(io.Discard, resp.Body)
+		resp.Body.Close()
+		if resp.StatusCode >= 200 {
+			codes = append(codes, resp.StatusCode)
+		}
 	}
 }
 
